@@ -462,11 +462,13 @@ impl Check for C08 {
     }
 
     fn rule(&self) -> String {
-        "Per episode one intact single-packet datagram (all eight kinds, real builders or foreign encoder, with/without padding); around it the single-fault space is enumerated exhaustively (every truncation length, extensions by 1/2/3/4/8 bytes and by itself, all 256 values of header byte 0 and of the packet-type byte, length field in {0, L-2..L+2, 0xffff}, padding trailer values with P set and clear, inner length bytes) plus 200 seeded double faults (truncate+reframe, P-bit+trailer, count+truncate+reframe, junk+reframe); and, in the first 4096 episodes of a run, an exhaustive sweep of the 16-bit length field (all 65536 values x 10 packet types x 3 first-byte variants x real size = announced -4/-1/0/+1/+4); each delivery goes to the 7 typed parsers, Unknown::parse and Packet::parse. evaluations = deliveries. Non-trivial = a fault fired and the delivery is at least 4 bytes (past the bare size check); distinct = distinct (vector of per-parser result codes, fault-kind sequence, length in words).".into()
+        "Per episode one intact single-packet datagram (all eight kinds, real builders or foreign encoder, with/without padding); around it the single-fault space is enumerated exhaustively (every truncation length, extensions by 1/2/3/4/8 bytes and by itself, all 256 values of header byte 0 and of the packet-type byte, length field in {0, L-2..L+2, 0xffff}, padding trailer values with P set and clear, inner length bytes) plus 200 seeded double faults (truncate+reframe, P-bit+trailer, count+truncate+reframe, junk+reframe) and 64 seeded pairs of arbitrary single faults; and, in the first 4096 episodes of a run, an exhaustive sweep of the 16-bit length field (all 65536 values x 10 packet types x 3 first-byte variants x real size = announced -4/-1/0/+1/+4); each delivery goes to the 7 typed parsers, Unknown::parse and Packet::parse. evaluations = deliveries. Non-trivial = a fault fired and the delivery is at least 4 bytes (past the bare size check); distinct = distinct (vector of per-parser result codes, fault-kind sequence, length in words).".into()
     }
     fn assumptions(&self) -> Vec<String> {
         vec![
             "exhaustive in the single-fault dimension per base datagram, sampled in base datagrams and double faults".into(),
+            "besides the crate's parsers: typed views obtained by try_as from what Unknown / Packet accepted, and three parsers defined in the harness on the public check_packet helper (type 255 / min 8, type 251 / min 14, type 250 / min 6 with MAX_COUNT 15)".into(),
+            "deliveries are parsed in place in one reusable receive buffer per worker, over the previous delivery; a reported case carries that previous content".into(),
             "RFC minimum sizes are hard-coded in the oracle (SR 28, RR 8, SDES 4, BYE 4, APP 12, RTPFB/PSFB 12, unknown 4)".into(),
             "only the implication accept => framed is checked; a call that unwinds is C01's finding and is counted as inconclusive here".into(),
         ]
